@@ -8,7 +8,7 @@ from ..harness import Outcome
 from .base import Prop, run_export, failure_class, failure_detail, Flows, stream_mismatch_class, describe_conn, \
     apply_segmentation
 
-NET = {"delay": 40, "early": 30, "lost_before": 15, "dup": 30, "dup_rto": 20, "dup_late": 10, "dup_merge": 25, "dup_half": 20, "_D": 4}
+NET = {"delay": 40, "early": 30, "lost_before": 15, "dup": 30, "dup_rto": 20, "dup_late": 10, "dup_merge": 25, "dup_half": 20, "keepalive": 150, "_D": 4}
 
 
 def first_displaced(conn, ex):
@@ -34,7 +34,8 @@ class C05(Prop):
     reach = ["dup_first_segment_of_record", "dup_after_later_data", "reorder_across_record_boundary", "seq_wrap_in_record",
              "seq_wrap_in_conn", "header_split", "one_byte_segments", "record_spans_3_segments", "dup_late", "sweep",
              "with_checksum_option", "retransmission_with_other_boundaries",
-             "bulk_direction_over_64k", "duplicate_after_more_than_1024_segments"]
+             "bulk_direction_over_64k", "duplicate_after_more_than_1024_segments", "keep_alive_probe_before_more_data",
+             "seq_wrap_exactly_on_record_boundary"]
     exhaustive_note = "all 2^10 (quick) / 2^12 (thorough) cut sets of a 2-record client stream of 11 / 13 bytes at the record-handler level"
 
     def sweep_bits(self, tier):
@@ -94,7 +95,18 @@ class C05(Prop):
                 fl, _, _ = tlsconn.build(conn)
                 for d in "cs":
                     n = sum(len(w.raw) for f in fl for w in f[d])
-                    if n > 2 and P.chance(70):
+                    if n > 2 and P.chance(30):
+                        # the wrap falls exactly on a record boundary: the next expected sequence number is 0 there
+                        ends = []
+                        acc = 0
+                        for f_ in fl:
+                            for w_ in f_[d]:
+                                acc += len(w_.raw)
+                                ends.append(acc)
+                        b_ = P.choice(ends[:-1] or ends)
+                        plan["isn_" + d] = ((1 << 32) - 1 - b_) & 0xFFFFFFFF
+                        plan["wrap_on_record_boundary"] = True
+                    elif n > 2 and P.chance(70):
                         plan["isn_" + d] = ((1 << 32) - 1 - P.range(1, n - 1)) & 0xFFFFFFFF
                     else:
                         plan["isn_" + d] = P.bits(32)
@@ -280,6 +292,8 @@ class C05(Prop):
             for f in t["frames"]:
                 # a later segment with a first sequence number seen before is a retransmission (also when it was cut
                 # differently): the copy seen first stands for it
+                if f.get("tail"):
+                    continue        # a keep-alive probe repeats one byte that was captured (and framed) before
                 if f["d"] == d and f["kept"] and f["lo"] not in first:
                     first[f["lo"]] = f
             for r, (_, md) in zip(want, got):
@@ -375,6 +389,10 @@ class C05(Prop):
             out.count("reach:with_checksum_option")
         if any(a[1] in ("dup_merge", "dup_half") for d in "cs" for a in (plan.get("acts") or {}).get(d, [])):
             out.count("reach:retransmission_with_other_boundaries")
+        if plan.get("wrap_on_record_boundary"):
+            out.count("reach:seq_wrap_exactly_on_record_boundary")
+        if any(f.get("tail") and f["kept"] for f in fr):
+            out.count("reach:keep_alive_probe_before_more_data")
         for d in "cs":
             fd = [f for f in fr if f["d"] == d]
             isn = tcp.get("isn_" + d, 0)
